@@ -80,6 +80,7 @@ func (f *NsubstituteIf) Call(s *slip.Scope, args slip.List, depth int) (result s
 	switch seq := args[2].(type) {
 	case nil:
 		// nothing to replace
+		sr.checkBounds(0)
 	case slip.List:
 		result = sr.replace(seq)
 	case slip.String:
